@@ -20,6 +20,8 @@ for dp, dn, fn in os.walk(repo + "/src"):
                 if isinstance(n, ast.Name) and n.id.startswith("_") and not n.id.startswith("__") and len(n.id) > 2:
                     names.add(n.id)
 names -= {"_asdict", "_replace", "_fields"}
+# a textual rename of a name that is also a module name would break the imports (not behaviour preserving)
+names -= {os.path.splitext(f)[0] for dp, dn, fn in os.walk(repo + "/src") for f in fn if f.endswith(".py")}
 only = sys.argv[1:]
 if only:
     names = set(only)
